@@ -247,6 +247,49 @@ def lateness_sweep(ctx, mine, lates, starts=(None, 65500, 65530)):
     report(ctx, rej, traces, lambda tid: names[tid - 1], mine)
 
 
+def _acklate(args):
+    """Every datagram of the return path is lost for exactly L ticks while both sides emit one datagram per tick: the first acknowledgement that gets through
+    names the oldest unacknowledged datagram at distance L (+-1) - a sweep of L across the 32-bit ack window exercises every bit, the last one included."""
+    L, start, seed = args
+    w = W.ConnWorld(start_seq=start)
+    try:
+        import random
+        rnd = random.Random(seed)
+        t0 = rnd.randint(3, 6)
+
+        def sends(tick, name, world):
+            if tick > t0 + L + 6:
+                return []
+            if name == "c" and tick == t0:
+                return [(20, 0, True), (30, -1, True)]          # the messages whose fate is watched: an unretried and a guaranteed send, both with callbacks
+            return [(rnd.choice([4, 8]), 0, False)]               # both sides keep emitting one datagram per tick
+
+        def fate(tick, name, dgid, world):
+            if name == "s" and t0 <= tick < t0 + L:
+                return []                                          # return path dark
+            return [0]
+
+        def replays(tick, name, world):
+            return []
+        return w.run(W.FnPolicy(sends, fate, replays), t0 + L + 12, heal_after=t0 + L + 8, quiesce_ticks=200)
+    finally:
+        w.close()
+
+
+def ack_lateness_sweep(ctx, mine, lates, starts=(None, 65500)):
+    from concurrent.futures import ProcessPoolExecutor
+    jobs = [(L, st, ctx.seed + L) for L in lates for st in starts]
+    with ProcessPoolExecutor(16) as ex:
+        traces = list(ex.map(_acklate, jobs))
+    names = ["ack-lateness-%d(start=%s)" % (j[0], j[1]) for j in jobs]
+    rej, r = judge(ctx, traces, "Trace_Conn %s ack lateness sweep (%d traces)" % (mine, len(traces)), stale=True, ctxdev=True)
+    ctx.traces += len(traces) - len({x["tid"] for x in rej})
+    for t in traces:
+        ctx.evaluations += len(t)
+    ctx.extra["ack_lateness_sweep"] = "%d schedules, return path dark for %d..%d ticks" % (len(jobs), min(lates), max(lates))
+    report(ctx, rej, traces, lambda tid: names[tid - 1], mine)
+
+
 def _schedule(args):
     """Run the real endpoints under one TLC-enumerated environment schedule."""
     sc, seed = args
